@@ -50,6 +50,7 @@ def run(tier, seed, replay=None):
     wd = tempfile.mkdtemp(dir=os.path.join(C.BUILD, "work"))
     try:
         bins = P.build_binaries(tools, wd)
+        bins.update(P.build_big(tools, wd))      # an image larger than 200000 bytes whose far words are read
         # the D25 shape: first instruction is a system call
         p = os.path.join(wd, "svcfirst.S")
         open(p, "w").write("OPR SVC\nBR cont\nDATA 2\nDATA 0\nDATA 0\nDATA 42\ncont\nLDAC 5\nLDBM 1\nSTAI 2\nLDAC 0\nOPR SVC\n")
